@@ -125,11 +125,14 @@ type scenario struct {
 	// default server configuration, where /bs-and-maybe-also-index/ routes to /bs/) instead of being
 	// handed to the source directly.
 	ViaCond bool
+	// ErrKind: shape of the injected lower-layer errors (plain, the lower layer's own deadline or
+	// cancellation, an i/o timeout): none of them says anything about the handler's own context.
+	ErrKind int
 }
 
 func (sc *scenario) canonical() string {
 	var b strings.Builder
-	fmt.Fprintf(&b, "pool=%d mode=%s dest=%s wake=%v viacond=%v;", sc.CopierPool, sc.Mode, sc.Dest, sc.Wake, sc.ViaCond)
+	fmt.Fprintf(&b, "pool=%d mode=%s dest=%s wake=%v viacond=%v errkind=%d;", sc.CopierPool, sc.Mode, sc.Dest, sc.Wake, sc.ViaCond, sc.ErrKind)
 	for _, p := range sc.Pool {
 		b.WriteString(p.Ref.String())
 		b.WriteByte(',')
@@ -280,6 +283,7 @@ func (r *runner) newEpoch(prev *epoch) *epoch {
 		deletes:  map[string]bool{},
 		setLost:  map[string]bool{},
 	}
+	ep.env.ErrKind = r.sc.ErrKind
 	ep.from = ep.env.NewStore("from")
 	ep.q = ep.env.NewKV("q")
 	if r.sc.Dest == "index" {
